@@ -36,8 +36,9 @@ fn run_one(log: &mut Log, tag: &str, text: &[u8], alpha: &[u8], k: u32, s: usize
         let l = less(&b, &alphabet);
         let o = Occ::new(&b, k, &alphabet);
         let n = b.len();
+        let saj = usizes(&sa);
         parts = Some((sa, b, l, o));
-        json!({ "n": n })
+        json!({ "n": n, "sa": saj })
     });
     if r["st"] != "ok" {
         return;
